@@ -354,14 +354,14 @@ class NumInterp(Interp):
             'complex128': complex, 'complex64': complex, 'float64': float,
             'einsum': np.einsum, 'moveaxis': np.moveaxis, 'unravel_index': np.unravel_index, 'argmax': np.argmax, 'transpose': np.transpose, 'reshape': np.reshape, 'outer': np.outer, 'tensordot': np.tensordot,
             'sort': np.sort, 'asarray': np.asarray, 'abs': np.abs, 'mod': np.mod, 'arange': np.arange, 'cumprod': np.cumprod, 'hstack': np.hstack,
-            'concatenate': np.concatenate, 'dot': np.dot, 'hypot': np.hypot, 'append': np.append, 'prod': np.prod, 'isclose': np.isclose, 'allclose': np.allclose, 'log': np.log, 'power': np.power, 'trace': np.trace, 'square': np.square, 'sum': np.sum, 'tan': np.tan, 'arccos': np.arccos, 'arcsin': np.arcsin, 'angle': np.angle, 'real': np.real, 'imag': np.imag,
+            'concatenate': np.concatenate, 'dot': np.dot, 'hypot': np.hypot, 'append': np.append, 'prod': np.prod, 'isclose': np.isclose, 'allclose': np.allclose, 'log': np.log, 'power': np.power, 'trace': np.trace, 'square': np.square, 'sum': np.sum, 'tan': np.tan, 'arccos': np.arccos, 'arcsin': np.arcsin, 'angle': np.angle, 'real': np.real, 'imag': np.imag, 'round': np.round, 'floor': np.floor, 'ceil': np.ceil, 'sign': np.sign,
         }
         import math as _math
         import cmath as _cmath
-        self.mathfuncs = {'math': {k: getattr(_math, k) for k in ('pi', 'cos', 'sin', 'sqrt', 'floor', 'ceil', 'e', 'exp', 'tau', 'atan2', 'acos', 'asin', 'isclose', 'log', 'hypot', 'fmod', 'prod')},
+        self.mathfuncs = {'math': {k: getattr(_math, k) for k in ('pi', 'cos', 'sin', 'sqrt', 'floor', 'ceil', 'e', 'exp', 'tau', 'atan2', 'acos', 'asin', 'isclose', 'log', 'hypot', 'fmod', 'prod', 'gcd', 'lcm', 'isfinite', 'copysign')},
                           'cmath': {k: getattr(_cmath, k) for k in ('exp', 'sqrt', 'pi', 'phase', 'cos', 'sin')}}
-        import textwrap as _tw, itertools as _it, json as _json
-        self.stdlib = {'textwrap': _tw, 'itertools': _it, 'json': _json}     # pure standard-library helpers may be called
+        import textwrap as _tw, itertools as _it, json as _json, fractions as _fr
+        self.stdlib = {'textwrap': _tw, 'itertools': _it, 'json': _json, 'fractions': _fr}     # pure standard-library helpers may be called
         self.builtins = {'chr': chr, 'ord': ord, 'str': str, 'sorted': sorted, 'reversed': reversed, 'set': set, 'any': any, 'all': all, 'dict': dict, 'bool': bool,
                          'range': range, 'len': len, 'list': list, 'tuple': tuple, 'enumerate': enumerate, 'sum': sum,
                          'int': int, 'float': float, 'complex': complex, 'abs': abs, 'max': max, 'min': min, 'zip': zip, 'bin': bin, 'hex': hex, 'divmod': divmod, 'round': round,
@@ -513,6 +513,9 @@ class NumInterp(Interp):
                 return getattr(v, n.attr)
             if isinstance(v, (int, float, complex)) and n.attr in ('real', 'imag'):
                 return getattr(complex(v), n.attr)
+            import fractions as _fr
+            if isinstance(v, (_fr.Fraction, int)) and not isinstance(v, bool) and n.attr in ('numerator', 'denominator'):
+                return getattr(v, n.attr)
             raise Unsupported(f'attribute {ast.unparse(n)}')
         return super().ev(n)
 
